@@ -292,6 +292,69 @@ fn roundtrip_enum_impl(nkeys: usize, name: &str) {
 												}
 											}
 										}
+										// bounded cursors: every (lower, upper) from {unbounded, included(u), excluded(u)} over the
+										// key universe and a key past every stored key; complete walk in both directions
+										if bad.is_none() {
+											use std::ops::Bound;
+											let mut marks: Vec<Vec<u8>> = universe.clone();
+											marks.push(b"zz".to_vec());
+											let mut bounds: Vec<Bound<Vec<u8>>> = vec![Bound::Unbounded];
+											for m in &marks {
+												bounds.push(Bound::Included(m.clone()));
+												bounds.push(Bound::Excluded(m.clone()));
+											}
+											let bshow = |b: &Bound<Vec<u8>>| match b {
+												Bound::Unbounded => "unbounded".to_string(),
+												Bound::Included(k) => format!("included({})", show(k)),
+												Bound::Excluded(k) => format!("excluded({})", show(k)),
+											};
+											'rng: for lo in &bounds {
+												for hi in &bounds {
+													let asref = |b: &Bound<Vec<u8>>| -> Bound<Vec<u8>> { b.clone() };
+													let (lo2, hi2) = (asref(lo), asref(hi));
+													let lob: Bound<&[u8]> = match &lo2 { Bound::Unbounded => Bound::Unbounded, Bound::Included(k) => Bound::Included(k.as_slice()), Bound::Excluded(k) => Bound::Excluded(k.as_slice()) };
+													let hib: Bound<&[u8]> = match &hi2 { Bound::Unbounded => Bound::Unbounded, Bound::Included(k) => Bound::Included(k.as_slice()), Bound::Excluded(k) => Bound::Excluded(k.as_slice()) };
+													let range = crate::user_range_to_internal_range(lob, hib);
+													let inside = |uk: &Vec<u8>| -> bool {
+														(match lo { Bound::Unbounded => true, Bound::Included(k) => uk >= k, Bound::Excluded(k) => uk > k })
+															&& (match hi { Bound::Unbounded => true, Bound::Included(k) => uk <= k, Bound::Excluded(k) => uk < k })
+													};
+													let want_r: Vec<(Vec<u8>, Vec<u8>)> = entries.iter().filter(|(ik, _)| inside(&ik.user_key)).map(|(k, v)| (k.encode(), v.clone())).collect();
+													for backward in [false, true] {
+														let walk = || -> std::result::Result<Vec<(Vec<u8>, Vec<u8>)>, String> {
+															let mut it = t.iter(Some(range.clone())).map_err(|e| e.to_string())?;
+															let mut out = Vec::new();
+															let mut ok = if backward { it.seek_last() } else { it.seek_first() }.map_err(|e| e.to_string())?;
+															while ok && out.len() <= entries.len() + 2 {
+																out.push((it.key().encoded().to_vec(), it.value_encoded().map_err(|e| e.to_string())?.to_vec()));
+																ok = if backward { it.prev() } else { it.next() }.map_err(|e| e.to_string())?;
+															}
+															if backward {
+																out.reverse();
+															}
+															Ok(out)
+														};
+														let res = match std::panic::catch_unwind(std::panic::AssertUnwindSafe(walk)) {
+															Ok(r) => r,
+															Err(_) => Err("PANIC (message on stderr of the driver run)".to_string()),
+														};
+														match res {
+															Err(e) => bad = Some(format!("bounded {} walk [{}, {}] failed: {e}", if backward { "backward" } else { "forward" }, bshow(lo), bshow(hi))),
+															Ok(l) => {
+																if l != want_r {
+																	bad = Some(format!("bounded {} walk [{}, {}] returns {:?}, the entries inside the bounds are {:?}", if backward { "backward" } else { "forward" }, bshow(lo), bshow(hi),
+																		l.iter().map(|(k, _)| { let ik = InternalKey::decode(k); format!("{}@{}", show(&ik.user_key), ik.seq_num()) }).collect::<Vec<_>>(),
+																		want_r.iter().map(|(k, _)| { let ik = InternalKey::decode(k); format!("{}@{}", show(&ik.user_key), ik.seq_num()) }).collect::<Vec<_>>()));
+																}
+															}
+														}
+														if bad.is_some() {
+															break 'rng;
+														}
+													}
+												}
+											}
+										}
 										if bad.is_none() {
 											for k in &universe {
 												for &s in &[10u64, 9, 6, 5, 1] {
